@@ -71,6 +71,8 @@ def generate(seed, tier):
     backend = W.backend_of({"world": world})
     cfg = SC.gen_config(rw, N, backends=(backend,), allow_custom=True)
     if sim:
+        if cfg.get("force_target_nf"):
+            cfg["force_target_nf"] = False
         cfg["Jdes"] = min(cfg["Jdes"], 10)
         if cfg["scheduler"] == "custom":
             cfg["custom_plan"] = SC.gen_custom_plan(rw, N, cfg["fs"], max_bins=6, Lcap=48)
